@@ -75,9 +75,14 @@ fn ancestors(p: &str) -> Vec<String> {
     v
 }
 
-/// some proper ancestor is a file
+/// a component longer than the file system accepts (ENAMETOOLONG)
+fn too_long(p: &str) -> bool {
+    p.split('/').any(|c| c.len() > 255)
+}
+
+/// some proper ancestor is a file, or the name cannot exist at all
 fn blocked(t: &Tree, p: &str) -> bool {
-    ancestors(p).iter().any(|a| matches!(t.get(a), Some(Node::File(_))))
+    too_long(p) || ancestors(p).iter().any(|a| matches!(t.get(a), Some(Node::File(_))))
 }
 
 fn ensure_parents(t: &mut Tree, p: &str) {
@@ -657,6 +662,18 @@ fn run_case(case: &Case) -> Verdict {
         if torn_here.is_some() {
             set_fsize_limit(None);
         }
+        for p in paths_of(op) {
+            if too_long(&p) {
+                // over-long names are not in the statement's pool: the operation must fail cleanly; whether the
+                // missing parent directories were made on the way is left open
+                sim::with_core(|c| c.probe("over-long-name"));
+                for a in ancestors(&p) {
+                    if !t.contains_key(&a) {
+                        resync.push(a);
+                    }
+                }
+            }
+        }
         if let Some((class, detail)) = sim::with_core(|c| c.violation.clone()) {
             return Verdict::Fail { class, detail };
         }
@@ -702,6 +719,10 @@ fn gen_dir(rng: &mut Rng) -> String {
 }
 
 fn gen_file(rng: &mut Rng) -> String {
+    if rng.chance(1, 60) {
+        // a name longer than the file system allows (ENAMETOOLONG): every operation on it fails, nothing changes
+        return format!("{}/{}.txt", rng.pick(&DIRS), "n".repeat(300));
+    }
     format!("{}/{}", rng.pick(&DIRS), rng.pick(&FILES))
 }
 
